@@ -70,7 +70,7 @@ def check_sanitizer(ctx):
                 '\n') and '\n' not in v.value[:-1]:
             v = ast.copy_location(ast.Constant(value=v.value[:-1]), v)
             trailing = True
-        shapes.add(trailing)
+        this_shape = [trailing]
         if is_const(v) and isinstance(v.value, str):
             ok = v.value.startswith('#') and '\n' not in v.value
             ctx.ob('C17.SANITIZER', ok, W(r), f.qual, 'return ' + U(v),
@@ -78,6 +78,22 @@ def check_sanitizer(ctx):
                    'the help-text formatter can return %r, which is not a '
                    'comment' % v.value)
             ok_all = ok_all and ok
+        elif isinstance(v, ast.Call) and method_call(v, 'join') and \
+                is_const(method_call(v)[0], '') and len(v.args) == 1 and \
+                isinstance(v.args[0], (ast.GeneratorExp, ast.ListComp)) \
+                and len(v.args[0].generators) == 1 and not \
+                v.args[0].generators[0].ifs and isinstance(
+                    v.args[0].generators[0].iter, ast.Name) and isinstance(
+                        v.args[0].elt, ast.BinOp) and isinstance(
+                            v.args[0].elt.op, ast.Add) and U(
+                                v.args[0].elt.left) == U(
+                                    v.args[0].generators[0].target) and \
+                is_const(v.args[0].elt.right, '\n'):
+            # ''.join(line + '\n' for line in lines): newline terminated
+            acc = v.args[0].generators[0].iter.id
+            this_shape[0] = True
+            ctx.ob('C17.SANITIZER', True, W(r), f.qual, 'return ' + U(v),
+                   'every collected line followed by a newline')
         elif isinstance(v, ast.Call) and method_call(v, 'join') and \
                 is_const(method_call(v)[0], '\n') and len(v.args) == 1 and \
                 isinstance(v.args[0], ast.Name):
@@ -89,6 +105,7 @@ def check_sanitizer(ctx):
                    'the help-text formatter returns something that is not a '
                    "'#' constant or a newline-join of collected lines")
             ok_all = False
+        shapes.add(this_shape[0])
     if acc is None:
         raise AnalysisError('help-text formatter has no joined accumulator')
     # every element that enters the accumulator
